@@ -8,6 +8,9 @@ every run), so `c20_table` and everything resting on it is re-checked against th
 -/
 import Golib.Proof.C20Base32
 import Golib.Proof.C20Layout
+import Golib.Proof.C20Str
+import Golib.Proof.C20Utf8
+import Golib.Proof.C20Count
 
 namespace Golib.C20
 open Golib.Gen.C20
@@ -97,5 +100,109 @@ theorem c20_id_layout (req ms r : Int) (hr0 : 0 ≤ r) (hr1 : r < (newIdGen req)
 /-- Non-vacuity: the default generator (18 random bits) at the last millisecond before
 the 41-bit time field wraps, with the largest random part. -/
 example : compose (newIdGen 18) (2 ^ 41 - 1) (2 ^ 18 - 1) = 2 ^ 59 - 1 := by decide +kernel
+
+/-! ## StrGenerator (the random source is an arbitrary word stream `ws`) -/
+
+/-- `NewStrGenerator` on a non-empty character set: `bits` is the bit length of the set
+size `len`, `mask = 2^bits − 1`, so `2^(bits−1) ≤ len < 2^bits` (at least half of the index
+values cut from a random word are acceptable) and at least one index fits in a word. -/
+theorem c20_strgen_fields (cs : List Nat) (hne : Utf8.runes cs ≠ [])
+    (hlt : (Utf8.runes cs).length < 2 ^ 63) :
+    ∃ g, newStrGen cs = some g ∧ g.charSet = Utf8.runes cs ∧ 1 ≤ g.charIdxBits ∧
+      g.charIdxMask = 2 ^ g.charIdxBits - 1 ∧ 2 ^ (g.charIdxBits - 1) ≤ g.charSet.length ∧
+      g.charSet.length < 2 ^ g.charIdxBits ∧ g.charIdxMax = 63 / g.charIdxBits ∧ 1 ≤ g.charIdxMax :=
+  newStrGen_spec cs hne hlt
+
+/-- Whenever `Generate(n)` (`n ≥ 0`) returns, it returns exactly `n` runes, all drawn from
+the character set; it never panics, whatever the random words are.  (Any generator
+state, any set incl. multi-byte runes.) -/
+theorem c20_str_partial (g : StrGen) (n : Nat) (ws : List Nat) :
+    generate g n ws ≠ .panic ∧
+    ∀ out rest, generate g n ws = .done out rest →
+      out.length = n ∧ (∀ r ∈ out, r ∈ g.charSet) ∧ rest.length < ws.length := by
+  rcases generate_spec g n ws with ⟨he, _⟩ | ⟨out, rest, hd, h1, h2, h3⟩
+  · rw [he]; exact ⟨by simp, by intro out rest h; cases h⟩
+  · rw [hd]
+    refine ⟨by simp, ?_⟩
+    intro out' rest' h
+    cases h
+    exact ⟨h1, h2, h3⟩
+
+/-- Totality: if the words offered contain `n` acceptable indices (counting `charIdxMax`
+indices per word), `Generate(n)` returns without asking for more words. -/
+theorem c20_str_total (g : StrGen) (n : Nat) (ws : List Nat) (hne : ws ≠ [])
+    (hoff : n ≤ offered g ws) : ∃ out rest, generate g n ws = .done out rest := by
+  rcases generate_spec g n ws with ⟨_, h | h⟩ | ⟨out, rest, hd, _⟩
+  · exact absurd h hne
+  · omega
+  · exact ⟨out, rest, hd⟩
+
+/-- The returned Go string (`string` of the runes written) decodes back to exactly the
+`n` runes written, for a generator built by `NewStrGenerator` from ANY byte string as
+character set (multi-byte runes; invalid bytes count as U+FFFD). -/
+theorem c20_str_runes (cs : List Nat) (g : StrGen) (hg : newStrGen cs = some g) (n : Nat)
+    (ws : List Nat) (out : List Int) (rest : List Nat) (h : generate g n ws = .done out rest) :
+    Utf8.runes (Utf8.encode out) = out ∧ Utf8.runeCount (Utf8.encode out) = n ∧
+      ∀ r ∈ out, r ∈ Utf8.runes cs := by
+  have hcs : g.charSet = Utf8.runes cs := by
+    simp only [newStrGen] at hg
+    split at hg
+    · cases hg
+    · cases hg; rfl
+  obtain ⟨hlen, hmem, _⟩ := (c20_str_partial g n ws).2 out rest h
+  have hvalid : ∀ r ∈ out, Utf8.validRune r = true :=
+    fun r hr => Utf8.runes_validRune cs r (hcs ▸ hmem r hr)
+  exact ⟨Utf8.runes_encode out hvalid, by rw [Utf8.runeCount_encode out hvalid, hlen],
+    fun r hr => hcs ▸ hmem r hr⟩
+
+/-- Non-vacuity: the set "你好é" (3 runes, 2 index bits), a word whose indices are
+3 (rejected), 0, 1, 2: three runes come out of one word. -/
+example : (newStrGen [0xe4, 0xbd, 0xa0, 0xe5, 0xa5, 0xbd, 0xc3, 0xa9]).map
+    (fun g => generate g 3 [0b10010011]) = some (.done [0x4f60, 0x597d, 0xe9] []) := by
+  decide +kernel
+
+/-! ## CountGenerator -/
+
+/-- `AddRule` keeps the rules sorted by period and all parameters positive, from the empty
+generator and for any order of insertion. -/
+theorem c20_addrule_sorted (xs : List Rule) (hx : ∀ v ∈ xs, v.OK) :
+    Sorted 0 (xs.foldl addRule []) ∧ ∀ v ∈ xs.foldl addRule [], v.OK :=
+  foldl_addRule_ok xs hx [] trivial (by simp)
+
+/-- `Min(diff) ≤ Generate(id, diff) ≤ Max(diff)`, and none of the three panics, for every
+rule list sorted by period with positive parameters, every hash value and every `diff`. -/
+theorem c20_count_bounds (rs : List Rule) (hs : Sorted 0 rs) (hok : ∀ v ∈ rs, v.OK)
+    (hn : Nat) (diff : Int) :
+    ∃ g mn mx, countGenerate rs hn diff = some g ∧ countMin rs diff = some mn ∧
+      countMax rs diff = some mx ∧ mn ≤ g ∧ g ≤ mx ∧ 0 ≤ g := by
+  by_cases hd : diff ≤ 0
+  · exact ⟨0, 0, 0, by simp [countGenerate, hd], by simp [countMin, hd], by simp [countMax, hd],
+      by omega, by omega, by omega⟩
+  · obtain ⟨g, mn, mx, h1, h2, h3, b1, b2, b3⟩ :=
+      loops_bounds hn diff rs 0 0 0 0 hs hok (by omega) (Int.le_refl _) (Int.le_refl _)
+    exact ⟨g, mn, mx, by simp only [countGenerate, hd, if_false]; exact h1,
+      by simp only [countMin, hd, if_false]; exact h2,
+      by simp only [countMax, hd, if_false]; exact h3, b1, b2, b3⟩
+
+/-- `Generate(id, ·)` is non-decreasing in the elapsed time. -/
+theorem c20_count_mono (rs : List Rule) (hs : Sorted 0 rs) (hok : ∀ v ∈ rs, v.OK)
+    (hn : Nat) (d1 d2 : Int) (hd : d1 ≤ d2) :
+    ∃ g1 g2, countGenerate rs hn d1 = some g1 ∧ countGenerate rs hn d2 = some g2 ∧ g1 ≤ g2 := by
+  by_cases h2 : d2 ≤ 0
+  · have h1 : d1 ≤ 0 := by omega
+    exact ⟨0, 0, by simp [countGenerate, h1], by simp [countGenerate, h2], Int.le_refl _⟩
+  · by_cases h1 : d1 ≤ 0
+    · obtain ⟨g, _, _, hg, _, _, _, _, b3⟩ :=
+        loops_bounds hn d2 rs 0 0 0 0 hs hok (by omega) (Int.le_refl _) (Int.le_refl _)
+      exact ⟨0, g, by simp [countGenerate, h1], by simp only [countGenerate, h2, if_false]; exact hg, b3⟩
+    · obtain ⟨g1, g2, e1, e2, hle⟩ := genLoop_mono hn d1 d2 hd rs 0 0 hs hok (by omega)
+      exact ⟨g1, g2, by simp only [countGenerate, h1, if_false]; exact e1,
+        by simp only [countGenerate, h2, if_false]; exact e2, hle⟩
+
+/-- Non-vacuity: the rule set of the package's own test (with its zero parameters made
+positive) is sorted and positive; a value across two period boundaries. -/
+example : Sorted 0 [⟨1800, 100, 3, 2⟩, ⟨86400, 300, 15, 3⟩] ∧
+    (⟨1800, 100, 3, 2⟩ : Rule).OK ∧ countGenerate [⟨1800, 100, 3, 2⟩, ⟨86400, 300, 15, 3⟩] 7 90000 = some 12496 := by
+  refine ⟨⟨by decide, by decide, trivial⟩, ⟨by decide, by decide, by decide, by decide, by decide, by decide⟩, by decide +kernel⟩
 
 end Golib.C20
